@@ -345,6 +345,24 @@ func (P *Prog) subsetHelperIn(fn *ssa.Function, own ssa.Value, sink *ssa.BasicBl
 	return nil, nil, nil
 }
 
+// canon names the object a value denotes, looking through single-assignment local cells: a variable that is
+// assigned once (directly, or as the parameter binding of an expanded helper) denotes what was assigned to it.
+func canon(v ssa.Value) ssa.Value {
+	for d := 0; d < 6; d++ {
+		c := cellOf(v)
+		a, ok := c.(*ssa.Alloc)
+		if !ok {
+			return stripConv(c)
+		}
+		val, single := singleStore(a)
+		if !single {
+			return a
+		}
+		v = val
+	}
+	return v
+}
+
 func checkC06(R *Run) {
 	P := R.P
 	R.rule("subset-loop", "every AccountManager.Create reachable from a handler is preceded by a loop over i = 0..63 (init 0, step 1, bound 8*len(AccessBitmap)) in which an iteration with requested.IsSet(i) true and requester.Authorize(i) false (same i) can neither complete nor reach Create; Create is only reachable through the loop's exit edge")
@@ -500,7 +518,7 @@ func checkC06(R *Run) {
 	for _, f := range withAnons(fn) {
 		for _, ci := range callsIn(f) {
 			if calleeName(ci.Common()) == "(*hotline.ClientConn).Disconnect" {
-				targetCell = cellOf(ci.Common().Args[0])
+				targetCell = canon(ci.Common().Args[0])
 			}
 		}
 	}
@@ -519,7 +537,9 @@ func checkC06(R *Run) {
 	}
 	val, single := singleStore(targetCell)
 	fromGet := false
-	if single {
+	if c := callValue(targetCell); c != nil && calleeName(&c.Call) == "(hotline.ClientManager).Get" {
+		fromGet, single = true, true
+	} else if single {
 		if c := callValue(val); c != nil && calleeName(&c.Call) == "(hotline.ClientManager).Get" {
 			fromGet = true
 		}
@@ -536,7 +556,7 @@ func checkC06(R *Run) {
 			if pf.kind != "truth" || len(pf.args) != 2 || pf.args[0] == nil {
 				continue
 			}
-			if k, ok := constInt(pf.args[1]); ok && k == 23 && cellOf(pf.args[0]) == targetCell {
+			if k, ok := constInt(pf.args[1]); ok && k == 23 && canon(pf.args[0]) == targetCell {
 				nGuard++
 				if !pf.holds {
 					cut[e] = true
@@ -556,7 +576,7 @@ func checkC06(R *Run) {
 		R.check(nGuard > 0 && !reach[s.Block()], "nodiscon-guard", fmt.Sprintf("%s: %s #%d", fname(fn), name, nCreateIn(fn, s)), P.ipos(s),
 			"unreachable for a protected target", "a target whose account has cannot-be-disconnected (23) still reaches this ban/disconnect site", P.describePath(pathTo(fn, s.Block(), cut))...)
 	}
-	R.floor("nodiscon-guard", 4)
+	R.floor("nodiscon-guard", 3)
 }
 
 // nCreateIn: ordinal of the instruction among the calls to the same callee in fn (stable construct key).
